@@ -192,32 +192,116 @@ theorem meta_identity (tok : String → α) (m : Meta) : (metaHooks tok).fromMet
 
 /-! ### the two expression helpers differ only on string literals -/
 
-theorem helpers_agree_off_strings (parse : String → Option String) (tok : String → α) (m : Meta)
-    (h : ∀ p s t sp t' sp', m ≠ .nameValue p (.lit ⟨.str s, t, sp⟩) t' sp') :
-    parseStrLiteral parse tok m = preserveStrLiteral tok m ∨
-      (∃ p l t sp, m = .nameValue p (.lit l) t sp ∧ notStr l) := by
-  cases m with
-  | path p => exact Or.inl rfl
-  | list _ _ _ _ _ _ => exact Or.inl rfl
-  | nameValue p e t sp =>
+/-- the test of `parse_str_literal`: the value, its invisible groups peeled, is a string literal -/
+theorem strLitOf_some (e : Expr) (l : Lit) :
+    strLitOf e = some l ↔ ungroup e = .lit l ∧ ∃ s, l.v = .str s := by
+  induction e using ungroup.induct with
+  | case1 g sp ih => simpa only [strLitOf, ungroup] using ih
+  | case2 e hng =>
+      have hu : ungroup e = e := by
+        cases e <;> first | rfl | exact absurd rfl (hng _ _)
+      rw [hu]
       cases e with
-      | lit l =>
-          refine Or.inr ⟨p, l, t, sp, rfl, ?_⟩
-          intro s hs
-          obtain ⟨v, lt, lsp⟩ := l
-          simp at hs; subst hs
-          exact h p s lt lsp t sp rfl
-      | group _ _ => exact Or.inl rfl
-      | path _ _ => exact Or.inl rfl
-      | qpath _ _ _ => exact Or.inl rfl
-      | array _ _ _ => exact Or.inl rfl
-      | other _ _ _ => exact Or.inl rfl
+      | lit l' =>
+          obtain ⟨v, t, sp⟩ := l'
+          cases v <;> simp [strLitOf]
+          case str s => intro h; subst h; exact ⟨s, rfl⟩
+          all_goals (intro h; subst h; intro s hs; cases hs)
+      | group g sp => exact absurd rfl (hng g sp)
+      | path _ _ => simp [strLitOf]
+      | qpath _ _ _ => simp [strLitOf]
+      | array _ _ _ => simp [strLitOf]
+      | other _ _ _ => simp [strLitOf]
 
-theorem helper_preserve_keeps_string (tok : String → α) (p : Path) (s t : String) (sp : Span) (t' : String) (sp' : Span) :
-    preserveStrLiteral tok (.nameValue p (.lit ⟨.str s, t, sp⟩) t' sp') = .ok (tok t) := rfl
+theorem strLitOf_none (e : Expr) :
+    strLitOf e = none ↔ ∀ s t sp, ungroup e ≠ .lit ⟨.str s, t, sp⟩ := by
+  constructor
+  · intro h s t sp hu
+    have := (strLitOf_some e ⟨.str s, t, sp⟩).mpr ⟨hu, s, rfl⟩
+    rw [h] at this; cases this
+  · intro h
+    cases hs : strLitOf e with
+    | none => rfl
+    | some l =>
+        obtain ⟨hu, s, hv⟩ := (strLitOf_some e l).mp hs
+        obtain ⟨v, t, sp⟩ := l
+        simp only at hv; subst hv
+        exact absurd hu (h s t sp)
 
-theorem helper_parse_parses_string (parse : String → Option String) (tok : String → α) (p : Path) (s t : String) (sp : Span) (t' : String) (sp' : Span) :
-    parseStrLiteral parse tok (.nameValue p (.lit ⟨.str s, t, sp⟩) t' sp') = parsedFromValue parse tok ⟨.str s, t, sp⟩ := rfl
+/-- an invisible group prints as its contents -/
+theorem toks_ungroup (e : Expr) : (ungroup e).toks = e.toks := by
+  induction e using ungroup.induct with
+  | case1 g sp ih => simpa only [ungroup, Expr.toks] using ih
+  | case2 e hng =>
+      have hu : ungroup e = e := by
+        cases e <;> first | rfl | exact absurd rfl (hng _ _)
+      rw [hu]
+
+/-- off string literals — any other literal included, grouped or not — the two helpers return the
+    same thing: the value as written -/
+theorem helpers_agree_off_strings (parse : String → Option String) (tok : String → α) (m : Meta)
+    (h : ∀ p e t' sp', m = .nameValue p e t' sp' → ∀ s t sp, ungroup e ≠ .lit ⟨.str s, t, sp⟩) :
+    parseStrLiteral parse tok m = preserveStrLiteral tok m := by
+  cases m with
+  | path p => rfl
+  | list _ _ _ _ _ _ => rfl
+  | nameValue p e t sp =>
+      have hn := (strLitOf_none e).mpr (h p e t sp rfl)
+      simp only [parseStrLiteral, preserveStrLiteral, hn]
+
+/-- in particular a literal that is not a string is returned as written by both -/
+theorem helpers_agree_on_other_literals (parse : String → Option String) (tok : String → α)
+    (p : Path) (l : Lit) (hl : notStr l) (t : String) (sp : Span) :
+    parseStrLiteral parse tok (.nameValue p (.lit l) t sp) = .ok (tok l.toks) ∧
+    preserveStrLiteral tok (.nameValue p (.lit l) t sp) = .ok (tok l.toks) := by
+  refine ⟨?_, rfl⟩
+  rw [helpers_agree_off_strings parse tok _ ?_]
+  · rfl
+  · intro p' e t' sp' hm s lt lsp hu
+    cases hm
+    simp only [ungroup] at hu
+    cases hu
+    exact hl s rfl
+
+/-- on a string literal, at any depth of invisible groups, one helper keeps the literal … -/
+theorem helper_preserve_keeps_string (tok : String → α) (p : Path) (e : Expr) (s t : String) (sp : Span)
+    (he : ungroup e = .lit ⟨.str s, t, sp⟩) (t' : String) (sp' : Span) :
+    preserveStrLiteral tok (.nameValue p e t' sp') = .ok (tok t) := by
+  have : e.toks = t := by rw [← toks_ungroup e, he]; rfl
+  simp only [preserveStrLiteral, this]
+
+/-- … and the other parses its contents -/
+theorem helper_parse_parses_string (parse : String → Option String) (tok : String → α) (p : Path)
+    (e : Expr) (s t : String) (sp : Span) (he : ungroup e = .lit ⟨.str s, t, sp⟩) (t' : String) (sp' : Span) :
+    parseStrLiteral parse tok (.nameValue p e t' sp') = parsedFromValue parse tok ⟨.str s, t, sp⟩ := by
+  have hs := (strLitOf_some e ⟨.str s, t, sp⟩).mpr ⟨he, s, rfl⟩
+  simp only [parseStrLiteral, hs]
+
+/-- the parsing helper reads a value exactly like `syn::Expr::from_meta` reads it -/
+theorem helper_parse_is_expr_target (parse : String → Option String) (tok : String → α) (p : Path)
+    (e : Expr) (t : String) (sp : Span) :
+    parseStrLiteral parse tok (.nameValue p e t sp) = exprFromExpr parse tok e := by
+  cases hs : strLitOf e with
+  | some l =>
+      obtain ⟨hu, s, hv⟩ := (strLitOf_some e l).mp hs
+      obtain ⟨v, lt, lsp⟩ := l
+      simp only at hv; subst hv
+      rw [helper_parse_parses_string parse tok p e s lt lsp hu]
+      clear hs
+      induction e using ungroup.induct with
+      | case1 g gsp ih => simp only [exprFromExpr]; exact ih (by simpa only [ungroup] using hu)
+      | case2 e hng =>
+          have hu' : ungroup e = e := by
+            cases e <;> first | rfl | exact absurd rfl (hng _ _)
+          rw [hu'] at hu; subst hu; rfl
+  | none =>
+      have hn := (strLitOf_none e).mp hs
+      rw [expr_bare parse tok e (by
+        intro l hl s hv
+        obtain ⟨v, lt, lsp⟩ := l
+        simp only at hv; subst hv
+        exact hn s lt lsp hl), toks_ungroup]
+      simp only [parseStrLiteral, hs]
 
 /-! ### non-vacuity -/
 def pAB : Path := { global := false, segs := ["a", "b"], plain := true, toks := "a :: b", span := ⟨4, 8⟩ }
